@@ -168,8 +168,33 @@ def streamAsItems {α : Type} : Except Bytes (List (Item α)) → List (Item α)
   | .ok items => items
   | .error e => [.err e]
 
+def pRLine : TP RLine := do
+  let t ← tok
+  if t == "blank" then pure .blank
+  else if t == "bad" then pure .bad
+  else if t == "r" then do
+    let b ← hex
+    let d ← nat
+    let r ← nat
+    let p ← nat
+    let e ← nat
+    pure (.resp ⟨b, d != 0, r, p, e⟩)
+  else failure
+
+def showCb (c : Chunk) : String := s!"{hexOrDash c.content}/{b01 c.done}/{c.reason}/{c.pec}/{c.ec}"
+
 def handle (toks : List String) : Option String :=
   match toks with
+  | "completion" :: rest =>
+    -- completion <httpFail 0|1> <clean|broken> <n> {blank | bad | r <contenthex> <done> <reason> <pec> <ec>}*
+    --   -> {contenthex/done/reason/pec/ec}* <nil|err>     (what llmServer.Completion hands to the callback, and its return)
+    runTP (do
+      let hf := (← nat) != 0
+      let t ← tok
+      let be ← (if t == "clean" then pure BodyEnd.clean else if t == "broken" then pure BodyEnd.broken else failure)
+      let ls ← listOf pRLine
+      let r := completionCall [] hf ls be
+      pure (joinWith " " (r.1.map showCb ++ [match r.2 with | .ok => "nil" | .err _ => "err"]))) rest
   | "run" :: rest =>
     runTP (do
       let variant ← nat
